@@ -1327,3 +1327,164 @@ Proof.
     + destruct (if_process_udp ev ss src sport dst dport payload) as [[rest' h]| |] eqn:ER; cbn [obind] in H; try discriminate.
       inversion H; subst. eapply Skip; eauto. intros; discriminate.
 Qed.
+
+(* what one call of the interface's emit closure does to the wire: the datagram appears exactly
+   once when the closure answers Ok and the packet fits the link, never when it answers Err (then
+   at most a neighbor-discovery frame is sent), and never twice *)
+Theorem c09_interface_emit : forall ev p st na res st' na' res' c,
+  if_respond ev p (st, na, res) = Ok ((st', na', res'), c) ->
+  (c = EMIT_OK ->
+     (pkt_total_len p <= if_mtu st /\ if_out st' = if_out st ++ [FO_Pkt p]) \/
+     (pkt_total_len p > if_mtu st /\
+      (if_out st' = if_out st \/ if_out st' = if_out st ++ [FO_Pkt p]))) /\
+  (c <> EMIT_OK ->
+     if_out st' = if_out st \/ exists k a, if_out st' = if_out st ++ [FO_Aux k a]).
+Proof.
+  intros ev p st na res st' na' res' c H. unfold if_respond in H.
+  destruct (negb (if_has_token st)).
+  { inversion H; subst. split; [discriminate|auto]. }
+  unfold if_dispatch_ip in H.
+  destruct (addr_is_unspecified (p_dst p)); [discriminate|].
+  assert (LH : forall st1 ok, if_lookup_hardware_addr ev st (p_dst p) = (st1, ok) ->
+              (ok = true -> st1 = st) /\
+              (if_out st1 = if_out st \/ exists k a, if_out st1 = if_out st ++ [FO_Aux k a]) /\ if_mtu st1 = if_mtu st).
+  { intros st1 ok L. unfold if_lookup_hardware_addr in L.
+    destruct (e_is_broadcast ev (p_dst p)); [inversion L; subst; auto|].
+    destruct (e_is_multicast ev (p_dst p)); [inversion L; subst; auto|].
+    destruct (e_route ev (p_dst p)) as [nh|]; [|inversion L; subst; split; [discriminate|auto]].
+    destruct (neigh_lookup st nh =? 0); [inversion L; subst; auto|].
+    destruct (neigh_lookup st nh =? 2); [inversion L; subst; split; [discriminate|auto]|].
+    destruct (a_ver nh =? 4).
+    - destruct (e_src_v4 ev nh); inversion L; subst; (split; [discriminate|]); cbn; eauto.
+    - inversion L; subst. split; [discriminate|]. cbn; eauto. }
+  destruct (if_eth st) eqn:Eeth.
+  - destruct (if_lookup_hardware_addr ev st (p_dst p)) as [st1 ok] eqn:EL.
+    destruct (LH st1 ok eq_refl) as (L1 & L2 & L3).
+    destruct ok; cbn [negb] in H.
+    + rewrite (L1 eq_refl) in *.
+      destruct (pkt_total_len p >? if_mtu st) eqn:EM; rewrite Z.gtb_ltb in EM; bools.
+      * destruct ((a_ver (p_dst p) =? 4) && (pkt_total_len p <=? cfg_FRAGMENTATION_BUFFER_SIZE));
+          inversion H; subst; (split; [intros _; right; split; [lia|cbn; auto]|intros X; contradiction X; reflexivity]).
+      * inversion H; subst. split; [intros _; left; split; [lia|reflexivity]|intros X; contradiction X; reflexivity].
+    + inversion H; subst. split; [discriminate|intros _; exact L2].
+  - cbn [negb] in H.
+    destruct (pkt_total_len p >? if_mtu st) eqn:EM; rewrite Z.gtb_ltb in EM; bools.
+    * destruct ((a_ver (p_dst p) =? 4) && (pkt_total_len p <=? cfg_FRAGMENTATION_BUFFER_SIZE));
+        inversion H; subst; (split; [intros _; right; split; [lia|cbn; auto]|intros X; contradiction X; reflexivity]).
+    * inversion H; subst. split; [intros _; left; split; [lia|reflexivity]|intros X; contradiction X; reflexivity].
+Qed.
+
+(* boundaries: what has been handed out is, position by position, what was stored *)
+Theorem c09_no_merge_no_split : forall ev s ops s' rs,
+  sock_is_new s -> Forall op_args_ok ops -> sock_run ev s ops = Ok (s', rs) ->
+  let '(stored, consumed) := ghost_rx (combine ops rs) in
+  forall i x, nth_error consumed i = Some x -> nth_error stored i = Some x.
+Proof.
+  intros ev s ops s' rs N F E.
+  pose proof (c09_rx_exactly_once_whole_or_not_at_all ev s ops s' rs N F E) as H.
+  destruct (ghost_rx (combine ops rs)) as [stored consumed]. destruct H as (-> & _).
+  intros i x Hn. rewrite nth_error_app1; [exact Hn|]. apply nth_error_Some. congruence.
+Qed.
+
+(* metadata of a stored arrival: the source endpoint and the destination address of the packet *)
+Theorem c09_rx_metadata_correct : forall ev s src sport dst payload,
+  sock_wf s -> sock_kind s = 1 ->
+  exists s' ok, sock_step ev s (OpProcess (ArrUdp src sport dst payload)) = Ok (s', SR_Process ok) /\
+    tx_pending s' = tx_pending s /\
+    rx_pending s' = if ok then rx_pending s ++ [(mkDM src sport (Some dst), payload)] else rx_pending s.
+Proof.
+  intros ev s src sport dst payload W K.
+  destruct (sock_step_spec ev s (OpProcess (ArrUdp src sport dst payload)) W I) as (s' & r & E & _ & R).
+  destruct s; try discriminate K.
+  destruct r; cbn in R; try contradiction.
+  - exists s', stored. auto.
+  - cbn [sock_step] in E.
+    match type of E with obind ?x _ = _ => destruct x as [[? ?]| |]; cbn [obind] in E; [|discriminate E..] end.
+    discriminate E.
+Qed.
+
+(* ---- non-vacuity: a tiny transmit ring (3 slots, 8 bytes) forced to wrap with a padding record ---- *)
+Definition ex_env : env := std_env 4.
+Definition ex_sock : sock := SUdp (udp_new (pq_new 2 8) (pq_new 3 8)).
+Definition ex_m : dmeta := mkDM (mkA 4 3) 9000 None.
+Definition ex_ops : list sop :=
+  [ OpBind (BindUdp None 7000);
+    OpSend 5 ex_m [1;2;3;4;5];
+    OpSend 2 ex_m [6;7];
+    OpDispatch EMIT_OK;                 (* first datagram leaves: read_at = 5, 2 bytes queued *)
+    OpSend 4 ex_m [8;9;10;11];          (* contiguous window is 1 < 4: padding record + wrap *)
+    OpSend 3 ex_m [12;13;14];           (* refused: no room *)
+    OpDispatch EMIT_DISPATCH;           (* emit fails: datagram [6;7] stays queued *)
+    OpDispatch EMIT_OK;
+    OpDispatch EMIT_OK;                 (* skips the padding record, sends [8;9;10;11] *)
+    OpDispatch EMIT_OK ].
+
+Example c09_example_tx :
+  match sock_run ex_env ex_sock ex_ops with
+  | Ok (s', rs) =>
+      map (fun r => match r with SR_Code c => c | SR_Dispatch _ (Some p) c => 100 + c + 10 * zlen (p_payload p)
+                               | SR_Dispatch _ None c => 200 + c | _ => -1 end) rs
+        = [0; 0; 0; 150; 0; 2; 122; 120; 140; 200] /\
+      ghost_tx (tx_hdr ex_sock) (combine ex_ops rs) =
+        ([(ex_m, [1;2;3;4;5]); (ex_m, [6;7]); (ex_m, [8;9;10;11])],
+         [(ex_m, [1;2;3;4;5]); (ex_m, [6;7]); (ex_m, [8;9;10;11])]) /\
+      tx_pending s' = []
+  | _ => False
+  end /\
+  (* the state in the middle really contains a padding record *)
+  match sock_run ex_env ex_sock (firstn 5 ex_ops) with
+  | Ok (s', _) => map (fun it => (match it_hdr it with Some _ => 1 | None => 0 end, it_size it)) (q_items (sock_tx s'))
+                  = [(1, 2); (0, 1); (1, 4)] /\ q_read (sock_tx s') = 5 /\ q_len (sock_tx s') = 7
+  | _ => False
+  end.
+Proof. vm_compute. repeat split; reflexivity. Qed.
+
+Definition ex_rx_ops : list sop :=
+  [ OpBind (BindUdp None 7000);
+    OpProcess (ArrUdp (mkA 4 3) 9000 (mkA 4 1) [1;2;3;4;5]);
+    OpProcess (ArrUdp (mkA 4 4) 9001 (mkA 4 7) [6;7]);
+    OpRecv;
+    OpProcess (ArrUdp (mkA 4 3) 9000 (mkA 4 1) [8;9;10;11]);      (* padding + wrap in the 8-byte rx ring *)
+    OpProcess (ArrUdp (mkA 4 3) 9000 (mkA 4 1) [12]);             (* dropped: both metadata slots... *)
+    OpPeekSlice 1;                                                (* Truncated, datagram stays *)
+    OpRecvSlice 1;                                                (* Truncated, datagram [6;7] is dropped *)
+    OpRecvSlice 4;
+    OpRecv ].
+
+Example c09_example_rx :
+  match sock_run ex_env (SUdp (udp_new (pq_new 3 8) (pq_new 1 8))) ex_rx_ops with
+  | Ok (s', rs) =>
+      map (fun r => match r with
+                    | SR_Recv (RR_Ok n m d) => (1, n, a_id (dm_addr m), match dm_local m with Some a => a_id a | None => -1 end)
+                    | SR_Recv (RR_Trunc n (Some _)) => (2, n, 0, 0)
+                    | SR_Recv (RR_Trunc n None) => (3, n, 0, 0)
+                    | SR_Recv (RR_Err e) => (4, e, 0, 0)
+                    | SR_Process true => (5, 0, 0, 0)
+                    | SR_Process false => (6, 0, 0, 0)
+                    | _ => (0, 0, 0, 0) end) rs
+      = [(0,0,0,0); (5,0,0,0); (5,0,0,0); (1,5,3,1); (5,0,0,0); (6,0,0,0); (3,2,0,0); (2,2,0,0); (1,4,3,1); (4,3,0,0)]
+  | _ => False
+  end.
+Proof. vm_compute. reflexivity. Qed.
+
+Theorem c09_tx_exactly_once_reachable : forall ev s0 ops s rs,
+  sock_is_new s0 -> Forall op_args_ok ops -> sock_run ev s0 ops = Ok (s, rs) ->
+  let '(accepted, taken) := ghost_tx (tx_hdr s0) (combine ops rs) in
+  accepted = taken ++ tx_pending s /\
+  exists s' rs',
+    sock_run ev s (repeat (OpDispatch EMIT_OK) (length (tx_pending s))) = Ok (s', rs') /\
+    tx_pending s' = [] /\ rx_pending s' = rx_pending s /\
+    rs' = map (fun x => SR_Dispatch (Some x) (sock_prepare ev s (fst x) (snd x)) 0) (tx_pending s).
+Proof.
+  intros ev s0 ops s rs N F E.
+  pose proof (c09_tx_at_most_once_in_order_unmodified ev s0 ops s rs N F E) as H.
+  destruct (ghost_tx (tx_hdr s0) (combine ops rs)) as [acc taken]. destruct H as (H & _).
+  split; [exact H|]. apply c09_tx_exactly_once_when_emit_ok. eapply c09_reachable_wf; eauto.
+Qed.
+
+(* the numbers of the source the models and the statements rely on *)
+Lemma c09_constants :
+  wudp_HEADER_LEN = 8 /\ wipv4_HEADER_LEN = 20 /\ wipv6_HEADER_LEN = 40 /\ wicmpv4_HEADER_END = 8 /\
+  neigh_SILENT_TIME_ms = 1000 /\ neigh_ENTRY_LIFETIME_ms = 60000 /\ meta_DISCOVERY_SILENT_TIME_ms = 1000 /\
+  0 < cfg_FRAGMENTATION_BUFFER_SIZE.
+Proof. vm_compute. repeat split; reflexivity. Qed.
